@@ -244,6 +244,74 @@ fn snapshot_roundtrip(c: &mut Ctx, map: &BTreeMap<Vec<u8>, IndexStateItem>, ver:
     Some(enc)
 }
 
+/// Snapshot round trip through the typed entry point: the map is ordered by K's own `Ord`, which
+/// for integers differs from the byte order of their little-endian encoding.
+fn typed_snapshot_roundtrip<K: KeyBytes + Ord + Clone + std::fmt::Debug>(c: &mut Ctx, keys: &[K], name: &str, rng: &mut Rng) {
+    c.rep.evaluations += 1;
+    let mut map: BTreeMap<K, IndexStateItem> = BTreeMap::new();
+    for k in keys {
+        map.insert(k.clone(), IndexStateItem { blob_hash: rand_hash(rng), blob_size: rand_size(rng) });
+    }
+    let ver = NonZeroU64::new(rng.range(1, 1000));
+    let enc = match catch(|| codec::serialize_index_state(&map, ver)) {
+        Ok(e) => e,
+        Err(p) => {
+            c.fail(&["C16"], "serializing a typed index snapshot panicked", name, p);
+            return;
+        }
+    };
+    match catch(|| codec::deserialize_index_state(&enc)) {
+        Ok(Ok((back, v))) => {
+            let want: BTreeMap<Vec<u8>, IndexStateItem> = map.iter().map(|(k, i)| (k.to_key_bytes_owned(), *i)).collect();
+            if back != want || v != ver {
+                c.fail(&["C16"], "typed index snapshot does not round-trip", name, format!("{} keys {:?}", keys.len(), &keys[..keys.len().min(4)]));
+            }
+            // and every key must convert back
+            for kb in back.keys() {
+                if K::from_key_bytes(kb).is_none() {
+                    c.fail(&["C16"], "a snapshot key does not convert back to its key type", name, hex(kb));
+                }
+            }
+        }
+        Ok(Err(e)) => c.fail(
+            &["C16"],
+            "a valid index snapshot of this key type is rejected by the decoder",
+            name,
+            format!("{} keys {:?}: {e}", keys.len(), &keys[..keys.len().min(6)]),
+        ),
+        Err(p) => c.fail(&["C16"], "decoding a valid typed snapshot panicked", name, p),
+    }
+}
+
+fn typed_snapshots_phase(c: &mut Ctx, rng: &mut Rng, rounds: u64) {
+    macro_rules! ints {
+        ($($t:ty),*) => {$(
+            {
+                // order by value differs from order by little-endian bytes
+                let edge: Vec<$t> = vec![0 as $t, 1 as $t, 255u8 as $t, (256u16 as $t), (<$t>::MAX), (<$t>::MIN), (0 as $t).wrapping_sub(1), 2 as $t];
+                typed_snapshot_roundtrip(c, &edge, stringify!($t), rng);
+                for _ in 0..rounds {
+                    let n = rng.range(2, 12) as usize;
+                    let ks: Vec<$t> = (0..n).map(|_| rng.next_u64() as $t).collect();
+                    typed_snapshot_roundtrip(c, &ks, stringify!($t), rng);
+                    let small: Vec<$t> = (0..n).map(|_| rng.below(1024) as $t).collect();
+                    typed_snapshot_roundtrip(c, &small, stringify!($t), rng);
+                }
+            }
+        )*};
+    }
+    ints!(u8, i8, u16, i16, u32, i32, u64, i64, u128, i128);
+    for _ in 0..rounds {
+        let strs: Vec<String> = (0..rng.range(1, 8)).map(|_| (0..rng.range(0, 6)).map(|_| char::from_u32(rng.below(0x250) as u32).unwrap_or('x')).collect()).collect();
+        typed_snapshot_roundtrip(c, &strs, "String", rng);
+        let arrs: Vec<[u8; 4]> = (0..rng.range(1, 8)).map(|_| rng.bytes(4).try_into().unwrap()).collect();
+        typed_snapshot_roundtrip(c, &arrs, "[u8;4]", rng);
+        let vecs: Vec<Vec<u8>> = (0..rng.range(1, 8)).map(|_| rng.bytes_between(0, 9)).collect();
+        typed_snapshot_roundtrip(c, &vecs, "Vec<u8>", rng);
+    }
+    c.rep.count("typed_snapshot_key_types", 13);
+}
+
 fn rand_hash(rng: &mut Rng) -> BlobHash {
     match rng.below(4) {
         0 => BlobHash([0; 32]),
@@ -350,6 +418,17 @@ fn snapshots_phase(c: &mut Ctx, rng: &mut Rng, n_random: u64) -> Vec<Vec<u8>> {
         }
     }
     c.rep.count("snapshots_exhaustive_small_domain", 1);
+    if n_random >= 50 {
+        // counts beyond 8- and 16-bit fields: 70 000 entries / 70 000 removed keys
+        let mut big = BTreeMap::new();
+        for i in 0..70_000u32 {
+            big.insert(i.to_be_bytes().to_vec(), IndexStateItem { blob_hash: BlobHash([(i % 251) as u8; 32]), blob_size: u64::from(i) });
+        }
+        snapshot_roundtrip(c, &big, NonZeroU64::new(70_000));
+        let keys: Vec<Vec<u8>> = (0..70_000u32).map(|i| if i % 3 == 0 { vec![] } else { i.to_le_bytes().to_vec() }).collect();
+        op_roundtrip(c, &WalOpRaw::Remove { keys_bytes: keys });
+        c.rep.count("large_count_roundtrips", 2);
+    }
     for i in 0..n_random {
         let n = if i % 40 == 0 { rng.range(100, 300) } else { rng.range(0, 8) } as usize;
         let mut m = BTreeMap::new();
@@ -618,6 +697,7 @@ fn child_codec(c: &mut Ctx) {
             let n = if t { 200_000 } else { 4000 };
             let ops = ops_phase(c, &mut rng, n);
             let snaps = snapshots_phase(c, &mut rng, n / 4);
+            typed_snapshots_phase(c, &mut rng, if t { 2000 } else { 60 });
             c.rep.distinct.extend(ops.iter().chain(snaps.iter()).map(|e| u64::from_le_bytes(b3(e)[0..8].try_into().unwrap())));
         }
         2 => {
@@ -899,12 +979,53 @@ fn child_identity(c: &mut Ctx) {
         // random chunkings around buffer sizes
         let rounds = if c.thorough { 600 } else { 60 };
         for _ in 0..rounds {
-            let len = *rng.pick(&[8191usize, 8192, 8193, 16_384, 65_536, 65_537, 100_000]);
-            let content = rng.bytes(len);
+            let len = *rng.pick(&[8191usize, 8192, 8193, 16_384, 65_536, 65_537, 100_000, 196_608, 300_000]);
+            let mut content = rng.bytes(len);
             let mut chunks = Vec::new();
             let mut left = len;
-            let style = rng.below(6);
-            if style >= 4 {
+            let mut style = rng.below(6);
+            // contents with long constant runs (sparse-file / run-length style shortcuts show here),
+            // each run written by write calls of its own
+            match rng.below(6) {
+                0 => {
+                    content = vec![0u8; len];
+                    let piece = *rng.pick(&[65_536usize, 8192, 100_000]);
+                    let mut rest = len;
+                    while rest > 0 {
+                        let c = rest.min(piece);
+                        chunks.push(c);
+                        rest -= c;
+                    }
+                    left = 0;
+                    style = 0;
+                }
+                1 => {
+                    let head = rng.range(1, 20_000) as usize % len;
+                    content[head..].iter_mut().for_each(|b| *b = 0);
+                    chunks = vec![head, len - head];
+                    left = 0;
+                }
+                2 => {
+                    let head = rng.range(1, 20_000) as usize % len;
+                    content[head..].iter_mut().for_each(|b| *b = 0);
+                    chunks.push(head);
+                    let mut rest = len - head;
+                    while rest > 0 {
+                        let c = rest.min(65_536);
+                        chunks.push(c);
+                        rest -= c;
+                    }
+                    left = 0;
+                }
+                3 => {
+                    let tail = rng.range(1, 20_000) as usize % len;
+                    content[..len - tail].iter_mut().for_each(|b| *b = 0xff);
+                    chunks = vec![len - tail, tail];
+                    left = 0;
+                }
+                _ => {}
+            }
+            if style >= 4 && left > 0 {
                 // small header(s) first, then everything else in one large write (and the mirror)
                 let head = rng.range(1, 200) as usize;
                 if style == 4 {
